@@ -1153,22 +1153,27 @@ fn getset_command(
     // If output file specified, extract to file
     // Otherwise, extract to stdout (via temp file for simplicity)
     if let Some(output_path) = output {
-        // Extract each sample to the output file (append mode)
+        // Extract every sample into the one output file: it is opened once, each sample appends
+        // its records (opening it per sample truncated it, so only the last sample survived)
+        let mut writer = ragc_core::GenomeWriter::create(&output_path)?;
         for sample_name in &samples_to_extract {
             if verbosity > 0 {
                 eprintln!("Extracting sample: {sample_name}");
             }
-            decompressor.write_sample_fasta(sample_name, &output_path)?;
+            decompressor.write_sample_to(sample_name, &mut writer)?;
         }
     } else {
         // Extract to temp file then write to stdout
         let temp_path =
             std::env::temp_dir().join(format!("agc_extract_{}.fasta", std::process::id()));
-        for sample_name in &samples_to_extract {
-            if verbosity > 0 {
-                eprintln!("Extracting sample: {sample_name}");
+        {
+            let mut writer = ragc_core::GenomeWriter::create(&temp_path)?;
+            for sample_name in &samples_to_extract {
+                if verbosity > 0 {
+                    eprintln!("Extracting sample: {sample_name}");
+                }
+                decompressor.write_sample_to(sample_name, &mut writer)?;
             }
-            decompressor.write_sample_fasta(sample_name, &temp_path)?;
         }
         // Write temp file to stdout
         #[cfg(not(ragc_verif))]
